@@ -82,10 +82,11 @@ def gen_cases(tier, seed):
         for ws in (True, False):
             yield C(w="aggregate_narrow", shape=shp, subs_dtype=dt, with_shape=ws, red=["sum", "max", "default"][int(rng.integers(0, 3))])
     # aggregating constructor
-    for _ in range(60 if tier == "quick" else 600):
+    REDS = ["sum", "max", "min", "mean", "len", "custom", "default", "len_name", "var", "std", "prod", "first", "last", "pick_first", "ends", "ramp"]
+    for i in range(96 if tier == "quick" else 800):
         shp = gen.rand_shape(rng, int(rng.integers(1, 4)), 1, 4)
-        yield C(w="aggregate", shape=list(shp), red=["sum", "max", "min", "mean", "len", "custom", "default"][int(rng.integers(0, 7))],
-                nuniq=int(rng.integers(0, 6)), with_shape=bool(rng.integers(0, 4) != 0))
+        yield C(w="aggregate", shape=list(shp), red=REDS[i % len(REDS)],
+                nuniq=int(rng.integers(0, 6)), with_shape=bool(rng.integers(0, 4) != 0), mult=["any", "any", "distinct", "descending"][(i // len(REDS)) % 4])
 
 
 def run_case(case, ctx):
@@ -146,9 +147,12 @@ def _w_diag(case, ctx, rng):
     shape = tuple(case["shape"])
     nel = case["nel"]
     el = np.round(rng.uniform(1, 9, size=nel), 3) * rng.choice([-1.0, 1.0], size=nel)
+    if rng.random() < 0.35:
+        el[int(rng.integers(0, nel))] = 0.0       # a zero on the diagonal (e.g. a switched-off component's weight) is an implicit zero
     sparse = case["sparse"]
     g = "sptendiag" if sparse else "tendiag"
-    ctx.feat(gen=g, N=len(shape), rel=("shorter" if nel < min(shape) else "longer" if nel > max(shape) else "within"), with_shape=case["with_shape"])
+    ctx.feat(gen=g, N=len(shape), rel=("shorter" if nel < min(shape) else "longer" if nel > max(shape) else "within"), with_shape=case["with_shape"],
+             zero_el=bool(np.any(el == 0)))
     fn = ttb.sptendiag if sparse else ttb.tendiag
     kwo = {} if case.get("mo") is None else {"order": case["mo"]}
     ctx.feat(mo=str(case.get("mo")))
@@ -283,18 +287,28 @@ def _w_aggregate(case, ctx, rng):
     lin = rng.choice(size, size=nu, replace=False) if nu else np.array([], dtype=int)
     usubs = np.stack(np.unravel_index(lin, shape), axis=1) if nu else np.zeros((0, N), dtype=int)
     mult = rng.integers(1, 6, size=nu)
+    if case.get("mult") == "distinct":
+        mult = np.ones(nu, dtype=int)         # nothing to combine: a reducer is still applied to every one-element group
     subs = np.repeat(usubs, mult, axis=0)
     vals = rng.choice([-2.0, -1.0, 1.0, 2.0, 3.0, 0.5, 0.0], size=subs.shape[0])
     if rng.random() < 0.3 and nu:
         # force an exact cancellation so that a zero result must be dropped
         vals[: mult[0]] = ([1.0, -1.0] * 3)[: mult[0]] if mult[0] % 2 == 0 else vals[: mult[0]]
     p = rng.permutation(subs.shape[0])
+    if case.get("mult") == "descending":
+        p = np.argsort(-vals, kind="stable")  # every subscript's values are listed in descending order
     subs, vals = subs[p], vals[p]
     red = case["red"]
-    funs = {"sum": np.sum, "max": np.max, "min": np.min, "mean": np.mean, "len": len, "custom": (lambda x: float(np.sum(np.abs(x)))), "default": np.sum}
-    # the string names accepted are those of numpy_groupies; callables are applied to each subscript's value list
-    arg = {"sum": "sum", "max": "max", "min": "min", "mean": "mean", "len": len, "custom": funs["custom"]}.get(red)
-    ctx.feat(gen="from_aggregator", red=red, n_unique=("0" if nu == 0 else "1" if nu == 1 else "2+"), with_shape=case["with_shape"])
+    pick_first = lambda x: float(x[0])                                       # noqa: E731
+    ends = lambda x: float(x[-1] - 2.0 * x[0])                               # noqa: E731
+    ramp = lambda x: float(np.sum(np.asarray(x) * np.arange(1, len(x) + 1)))  # noqa: E731
+    funs = {"sum": np.sum, "max": np.max, "min": np.min, "mean": np.mean, "len": len, "custom": (lambda x: float(np.sum(np.abs(x)))), "default": np.sum,
+            "len_name": len, "var": np.var, "std": np.std, "prod": np.prod, "first": pick_first, "last": (lambda x: float(x[-1])),
+            "pick_first": pick_first, "ends": ends, "ramp": ramp}
+    # the string names accepted are those of numpy_groupies; callables are applied to each subscript's value list (in listed order)
+    arg = {"sum": "sum", "max": "max", "min": "min", "mean": "mean", "len": len, "custom": funs["custom"], "len_name": "len", "var": "var", "std": "std",
+           "prod": "prod", "first": "first", "last": "last", "pick_first": pick_first, "ends": ends, "ramp": ramp}.get(red)
+    ctx.feat(gen="from_aggregator", red=red, n_unique=("0" if nu == 0 else "1" if nu == 1 else "2+"), with_shape=case["with_shape"], mult=str(case.get("mult")))
     if nu == 0 and not case["with_shape"]:
         return
     want = np.zeros(shape)
